@@ -70,7 +70,8 @@ Cpr(rest, more) ==
        IN IF stop = 0 THEN (IF more THEN Need ELSE NoMatch)        \* only digits so far
           ELSE IF rest[stop] # 59 \/ stop = 2 \/ rest[2] = 48 THEN NoMatch
           ELSE LET stop2 == IndexOfByte(rest, stop + 1, (0..255) \ (48..57))
-               IN IF stop2 = 0 THEN (IF more THEN Need ELSE NoMatch)
+               IN IF stop2 = 0 THEN (IF stop + 1 <= Len(rest) /\ rest[stop + 1] = 48 THEN NoMatch       \* a column starting with 0 can never become a report
+                                     ELSE IF more THEN Need ELSE NoMatch)
                   ELSE IF rest[stop2] # 82 \/ stop2 = stop + 1 \/ rest[stop + 1] = 48 THEN NoMatch
                   ELSE LET y == Num(SubSeq(rest, 2, stop - 1), 1, 0)  x == Num(SubSeq(rest, stop + 1, stop2 - 1), 1, 0)
                        IN IF Len(rest) > 12 THEN Unspec ELSE Res(<<Ev("cpr", "cursor position", x - 1, y - 1, 0)>>, stop2 + 1)
